@@ -161,6 +161,7 @@ pub static DRIVERS: &[Driver] = &[
     Driver { name: "raw", run: crate::drivers4::raw_driver },
     Driver { name: "sparsebits", run: crate::sparsebits::sparsebits_driver },
     Driver { name: "psblend", run: crate::capsweep::psblend_driver },
+    Driver { name: "fdselect", run: crate::capsweep::fdselect_driver },
 ];
 
 pub fn find(name: &str) -> Option<usize> {
